@@ -6,6 +6,7 @@ import (
 	"os"
 	"path/filepath"
 	"strings"
+	"time"
 
 	"github.com/opsidian/parsley/ast"
 	"github.com/opsidian/parsley/ast/interpreter"
@@ -46,6 +47,9 @@ type c10tok struct {
 
 var c10kinds = []struct{ kind, text string }{
 	{"op", "a"}, {"op", "bb"}, {"op", "=="}, {"op", "c"}, {"word", "foo"}, {"word", "x"}, {"integer", "42"}, {"integer", "-7"}, {"string", "\"s t\""}, {"string", "\"\""},
+	// every other typed terminal of the library: each returns a node type of its own, with its own copy of the method
+	// (SetReaderPos) through which RightTrim moves a node's end
+	{"nil", "nil"}, {"bool", "true"}, {"bool", "false"}, {"float", "1.5"}, {"float", "-0.25"}, {"char", "'x'"}, {"char", "'\\n'"}, {"duration", "90s"}, {"duration", "1h30m"}, {"regexp", "ab12"},
 }
 
 func c10value(t c10tok) interface{} {
@@ -59,6 +63,27 @@ func c10value(t c10tok) interface{} {
 			return int64(42)
 		}
 		return int64(-7)
+	case "nil":
+		return nil
+	case "bool":
+		return t.Text == "true"
+	case "float":
+		if t.Text == "1.5" {
+			return float64(1.5)
+		}
+		return float64(-0.25)
+	case "char":
+		if t.Text == "'x'" {
+			return 'x'
+		}
+		return '\n'
+	case "duration":
+		if t.Text == "90s" {
+			return 90 * time.Second
+		}
+		return 90 * time.Minute
+	case "regexp":
+		return t.Text
 	default:
 		return t.Text[1 : len(t.Text)-1]
 	}
@@ -77,6 +102,27 @@ func c10lexeme(in string, x int, t c10tok) int {
 		e = scanWord(in, x, t.Text, 7)
 	case "integer":
 		e = scanInteger(in, x)
+	case "nil", "bool":
+		e = scanWord(in, x, t.Text, nil)
+	case "float":
+		e = scanFloat(in, x)
+	case "char":
+		e = scanChar(in, x)
+	case "duration":
+		e = scanDuration(in, x)
+	case "regexp": // [a-z]+[0-9]+, longest match
+		i := x
+		for i < len(in) && in[i] >= 'a' && in[i] <= 'z' {
+			i++
+		}
+		k := i
+		for k < len(in) && isDigit(in[k]) {
+			k++
+		}
+		if i == x || k == i {
+			return -1
+		}
+		return k - x
 	default:
 		e = scanString(in, x, false)
 	}
@@ -148,6 +194,18 @@ func c10build(t c10tok) parsley.Parser {
 		p = terminal.Word("w", t.Text, 7)
 	case "integer":
 		p = terminal.Integer("i")
+	case "nil":
+		p = terminal.Nil("n", "nil")
+	case "bool":
+		p = terminal.Bool("b", "true", "false")
+	case "float":
+		p = terminal.Float("f")
+	case "char":
+		p = terminal.Char("c")
+	case "duration":
+		p = terminal.TimeDuration("d")
+	case "regexp":
+		p = terminal.Regexp("r", "RE", "identifier", "[a-z]+[0-9]+", 0)
 	default:
 		p = terminal.String("s", false)
 	}
@@ -197,6 +255,20 @@ func c10simulateEnd(in string, x int, mode int) string {
 	return ""
 }
 
+// c10illFormed: the terminal does not read this token's text here. "TOKEN": the sequence is ill-formed (it must be
+// rejected). "RETOKEN": a float / duration / ... literal that abuts the next literal reads a LONGER literal ("-0.25"
+// "1.5" is also "-0.251" ".5"): another tokenisation of the same bytes may well be a parse - totality only.
+func c10illFormed(t c10tok, lexeme int) string {
+	switch t.Kind {
+	case "op", "word", "integer", "string":
+		return "TOKEN"
+	}
+	if lexeme >= 0 {
+		return "RETOKEN"
+	}
+	return "TOKEN"
+}
+
 func c10simulate(in string, toks []c10tok) (errText string, spans []c10span, x int) {
 	c := []byte(in)
 	for _, t := range toks {
@@ -206,16 +278,16 @@ func c10simulate(in string, toks []c10tok) (errText string, spans []c10span, x i
 		}
 		if left >= 0 {
 			end, errAt, msg := specSkipWs(c, x, left)
-			if c10lexeme(in, end, t) != len(t.Text) {
-				return "TOKEN", spans, x
+			if lx := c10lexeme(in, end, t); lx != len(t.Text) {
+				return c10illFormed(t, lx), spans, x
 			}
 			if errAt >= 0 {
 				l, cl := lineCol(in, errAt)
 				return fmt.Sprintf("failed to parse the input: %s%s at f:%d:%d", c10wrapPrefix(t), msg, l, cl), spans, x
 			}
 			x = end
-		} else if c10lexeme(in, x, t) != len(t.Text) {
-			return "TOKEN", spans, x
+		} else if lx := c10lexeme(in, x, t); lx != len(t.Text) {
+			return c10illFormed(t, lx), spans, x
 		}
 		s := x
 		x += len(t.Text)
@@ -402,7 +474,7 @@ func c10exec(j run.Job, a *run.Acc) {
 		if j.Family == "repeat" && rep > 0 {
 			// Many / SepBy over trimmed tokens: every element uses the first token's parser; success path and totality only
 			el := toks[0]
-			if el.Kind == "integer" || el.Kind == "word" {
+			if el.Kind != "op" && el.Kind != "string" {
 				// adjacent integers / words would merge into one lexeme: keep the tokenisation unique
 				el.Kind, el.Text = "op", "bb"
 			}
@@ -484,7 +556,7 @@ func c10exec(j run.Job, a *run.Acc) {
 				// a layout the modes forbid somewhere must not be accepted as is... but Many/SepBy may legally stop
 				// before the offending element only if the rest is empty, which Sentence excludes: so this is a violation
 				a.Violate("forbidden-whitespace-accepted", "forbidden-whitespace-accepted", d)
-			case rep == 1 && want != "TOKEN" && el.Right < 0 && (el.Alt == "" || el.Left == 3) && c10errOffset(in2, want) > xe:
+			case rep == 1 && want != "TOKEN" && want != "RETOKEN" && el.Right < 0 && (el.Alt == "" || el.Left == 3) && c10errOffset(in2, want) > xe:
 				// Many stops in front of the element whose whitespace the mode forbids and succeeds with the elements before
 				// it; Sentence's End then fails at the end of those, EARLIER than the whitespace error, so the furthest
 				// failure - the mode's whitespace error - is what the parse reports (the cases in which the two positions
@@ -547,6 +619,8 @@ func c10exec(j run.Job, a *run.Acc) {
 				a.Violate("panic", "panic", d)
 			case (node == nil) == (err == nil):
 				a.Violate("neither-or-both", "neither-or-both", d)
+			case wantA == "RETOKEN" || wantB == "RETOKEN":
+				a.Count("adjacent literals that read as one longer literal (another tokenisation: totality only)", 1)
 			case !okA && !okB:
 				if err == nil {
 					a.Violate("forbidden-whitespace-accepted", "forbidden-whitespace-accepted", d)
@@ -639,6 +713,8 @@ func c10exec(j run.Job, a *run.Acc) {
 			a.Violate("panic", "panic", d)
 		case (node == nil) == (err == nil):
 			a.Violate("neither-or-both", "neither-or-both", d)
+		case want == "RETOKEN":
+			a.Count("adjacent literals that read as one longer literal (another tokenisation: totality only)", 1)
 		case want == "TOKEN":
 			a.Count("ill-formed token sequences (totality only)", 1)
 			if err == nil {
